@@ -88,6 +88,10 @@ EXTRA_PROGRAMS = {
     "empty_premise": "type A;\nfunc c() -> A;\npred ok(A);\nrule mk {\n    then x := c()!;\n    then ok(x);\n}\n",
     "guard_fully_bound": "type A;\npred p(A, A);\npred q(A, A);\nrule g {\n    if p(x, y);\n    if q(x, y);\n    if p(y, x);\n    then q(y, x);\n}\n",
     "arity_nine": "type A;\npred w(A, A, A, A, A, A, A, A, A);\npred o(A);\nrule d {\n    if w(a, a, b, b, a, a, b, b, a);\n    then o(a);\n}\n",
+    "rule_without_conclusion": "type A;\npred le(A, A);\nrule watch {\n    if le(x, y);\n    if le(y, x);\n}\nrule refl {\n    if le(x, _);\n    then le(x, x);\n}\n",
+    "two_diagonal_patterns": "type A;\npred tri(A, A, A);\npred o(A);\nrule a {\n    if tri(x, y, x);\n    then o(y);\n}\nrule b {\n    if tri(x, y, y);\n    then o(x);\n}\nrule c {\n    if tri(x, x, y);\n    then o(y);\n}\n",
+    "two_function_diagonals": "type A;\nfunc mul(A, A) -> A;\npred o(A);\nrule a {\n    if mul(x, y) = x;\n    then o(y);\n}\nrule b {\n    if mul(x, y) = y;\n    then o(x);\n}\n",
+    "only_rule_without_conclusion": "type A;\npred p(A);\nrule w {\n    if p(_);\n}\n",
     "func_arity_eight": "type A;\nfunc f(A, A, A, A, A, A, A, A) -> A;\nrule t {\n    if r = f(a, b, a, b, a, b, a, b);\n    then f(b, a, b, a, b, a, b, a) = r;\n}\n",
 }
 
